@@ -6,6 +6,23 @@ root = os.path.dirname(here)
 claims = json.load(open(os.path.join(here, "claims.json")))
 props = [json.loads(l) for l in open(os.path.join(root, "properties.jsonl")) if l.strip()]
 ids = [p["id"] for p in props]
+# rule catalogue straight from the checker binary, so that the claim texts name exactly the rules that run
+import subprocess
+rules = {}
+try:
+    outp = subprocess.run([os.path.join(root, "bin", "lvcheck"), "-list"], env=dict(os.environ, LV_LIST_JSON="1"), capture_output=True, text=True).stdout
+    for l in outp.splitlines():
+        if l.startswith("{"):
+            r = json.loads(l)
+            for p_ in r["props"].split(","):
+                rules.setdefault(p_, []).append((r["name"], r["doc"]))
+except Exception as e:
+    print("warning: rule catalogue unavailable:", e)
+def with_rules(pid, text):
+    rs = sorted(rules.get(pid, []))
+    if not rs:
+        return text
+    return text + " Rules run for this property: " + "; ".join(f"{n} — {d}" for n, d in rs) + "."
 checks, na = [], []
 for pid in ids:
     c = claims.get(pid)
@@ -17,7 +34,7 @@ for pid in ids:
             "evidence_file": f"/verif/evidence/{pid}.json",
             "replay_cmd_template": "cat {path}",
             "engine": "lvcheck",
-            "level_claimed": {"category": "other", "text": c["text"], "design_ref": c.get("design_ref", "DESIGN.md §4 " + pid)},
+            "level_claimed": {"category": "other", "text": with_rules(pid, c["text"]), "design_ref": c.get("design_ref", "DESIGN.md §4 " + pid)},
             "level_note": c["note"],
             "technique": c["technique"],
         })
